@@ -788,6 +788,15 @@ pub fn signed_bitmessage_to_buf(
         return Err(ProtoError::from("TSIG signature record not found"));
     };
 
+    // https://tools.ietf.org/html/rfc8945#section-4.2
+    //   CLASS: This MUST be ANY.  TTL: This MUST be 0.
+    // Both fields are part of the digest as constants, so anything else can never be covered by the MAC.
+    if tsig_rr.dns_class != DNSClass::ANY || tsig_rr.ttl != 0 {
+        return Err(ProtoError::from(
+            "TSIG record must have class ANY and a TTL of 0",
+        ));
+    }
+
     let tsig = &tsig_rr.data;
     metadata.id = tsig.oid;
 
